@@ -69,6 +69,10 @@ def set_values(tier):
         # a list subclass holding sets (its elements must be written like those of a list)
         st.lists(st.lists(strs, min_size=2, max_size=5).map(lambda xs: ["set", xs]), min_size=1, max_size=3).map(
             lambda xs: ["mylist", xs]),
+        # set / frozenset subclasses
+        st.lists(strs, min_size=2, max_size=5).map(lambda xs: ["myset", xs]),
+        st.lists(st.lists(strs, min_size=2, max_size=5).map(lambda xs: ["myfrozen", xs]), min_size=1, max_size=3).map(
+            lambda xs: ["list", xs]),
         st.lists(st.lists(strs, min_size=2, max_size=5).map(lambda xs: ["frozenset", xs]), min_size=2,
                  max_size=4).map(lambda xs: ["set", xs]),
     )
@@ -101,6 +105,11 @@ def module_for(case, variant):
             return f"{k}([" + ", ".join(r(i) for i in x[1]) + "])"
         if k == "mylist":
             return "MyList([" + ", ".join(r(i) for i in x[1]) + "])"
+        if k in ("myset", "myfrozen"):
+            items = [r(i) for i in x[1]]
+            if variant == 1:
+                items = items[::-1]
+            return ("MySet" if k == "myset" else "MyFrozen") + "([" + ", ".join(items) + "])"
         if k == "call":
             return f"{x[1]}(**dict([" + ", ".join(f"({n!r}, {r(v)})" for n, v in x[2]) + "]))"
         return gv.render(x)
@@ -113,7 +122,7 @@ def module_for(case, variant):
 
 def nontrivial(d):
     for x in gv.walk(d):
-        if x[0] in ("set", "frozenset") and len(x[1]) >= 2:
+        if x[0] in ("set", "frozenset", "myset", "myfrozen") and len(x[1]) >= 2:
             kinds = {m[0] for m in x[1]}
             if "str" in kinds or len(kinds) > 1 or kinds & {"frozenset", "tuple", "call", "none", "enum"}:
                 return True
